@@ -68,6 +68,24 @@ func genC05(g *gen, tier string) *Scenario {
 		}
 		sc.Clients = append(sc.Clients, ops)
 	}
+	// race keys: exactly one Set each, by one client, and a Delete by ANOTHER client at about the same
+	// time (their events can reach the policy in either order); the oracle for them needs no order
+	if len(sc.Clients) >= 2 && g.pct(60) {
+		for k, n := 500, g.rng(1, 4); n > 0; n, k = n-1, k+1 {
+			a := g.n(len(sc.Clients))
+			b := (a + 1 + g.n(len(sc.Clients)-1)) % len(sc.Clients)
+			ia, ib := g.n(len(sc.Clients[a])+1), g.n(len(sc.Clients[b])+1)
+			set := Op{Kind: "set", Key: k, Cost: 1}
+			if g.pct(20) {
+				set.TTL = ttls[g.n(len(ttls))]
+			}
+			sc.Clients[a] = append(sc.Clients[a][:ia], append([]Op{set}, sc.Clients[a][ia:]...)...)
+			sc.Clients[b] = append(sc.Clients[b][:ib], append([]Op{{Kind: "del", Key: k}}, sc.Clients[b][ib:]...)...)
+			if g.pct(30) {
+				sc.Clients[b] = append(sc.Clients[b], Op{Kind: "del", Key: k})
+			}
+		}
+	}
 	// a client that only inserts fresh keys: capacity pressure
 	if g.pct(70) {
 		var ops []Op
@@ -157,6 +175,30 @@ func checkC05(rd *RunData) []Violation {
 		if resident[kv] {
 			vs = append(vs, Violation{"C05/notified-but-resident/" + reasonName[ls[0].Reason%3] + "," + fam, fmt.Sprintf("key %d value %d was reported %s but is still resident after Wait", kv.K, kv.V, reasonName[ls[0].Reason%3])})
 		}
+	}
+	// keys that received exactly one accepted write in the whole run (whoever deleted them, in whatever
+	// order the events travelled): the value is resident, or it left and was notified exactly once
+	for k, ws := range byKey {
+		if k < 500 || k >= 1000 {
+			continue
+		}
+		var only *c06ev
+		n := 0
+		for i := range ws {
+			if ws[i].kind != "del" {
+				only = &ws[i]
+				n++
+			}
+		}
+		if n != 1 {
+			continue
+		}
+		probe("c05.race-key-checked")
+		kv := KV{k, only.val}
+		if !resident[kv] && len(notes[kv]) == 0 {
+			vs = append(vs, Violation{"C05/missing-notification/set-delete-race,no-notification-at-all," + fam, fmt.Sprintf("key %d: its only value %d (%s) is not resident after Wait and the removal listener was never called for it (a Delete by another client raced the Set)", k, only.val, only.desc)})
+		}
+		delete(byKey, k)
 	}
 	// per key: the value that was current when a Delete ran, and the final value, must be accounted for
 	keys := make([]int, 0, len(byKey))
